@@ -186,6 +186,15 @@ theorem sprintfAdd_bounded {real len sz : Nat} (h : sprintfAdd real len = .ok sz
     · injection h with h; left; omega
     · cases h
 
+theorem partOf_le (n kept : Nat) {sz : Nat} (h : partOf n kept = .ok sz) : sz ≤ n := by
+  unfold partOf at h; injection h with h; omega
+
+theorem sameSize_eq (n : Nat) {sz : Nat} (h : sameSize n = .ok sz) : sz = n := by
+  unfold sameSize at h; injection h with h; omega
+
+theorem mapKeys_bounded {c : Nat} {l : Int} {sz : Nat} (hl : LimitOk l) (h : mapKeys c l = .ok sz) : (sz : Int) ≤ l :=
+  allocateArray_bounded hl h
+
 theorem sprintfFinish_bounded {real : Nat} {l : Int} {sz : Nat} (hl : LimitOk l) (h : sprintfFinish real l = .ok sz) :
     (sz : Int) ≤ l := by
   unfold sprintfFinish at h
